@@ -1348,6 +1348,18 @@ impl Analyzable for Statement
 				typer.contextual_type = None;
 				let value_type = value.value_type();
 				let value_type = infer_for_declaration(value_type, &name);
+				// If a preliminary pass over the function body refused to infer
+				// a type for this declaration, the value might take its type
+				// from the poisoned variable itself, e.g. `var x = 0x0;`.
+				// Keep the error, otherwise it is never reported.
+				let value_type = match (value_type, typer.get_symbol(&name))
+				{
+					(Some(Err(Poison::Poisoned)), Some(Err(poison))) =>
+					{
+						Some(Err(poison))
+					}
+					(value_type, _) => value_type,
+				};
 				let recoverable_error =
 					typer.put_symbol(&name, value_type.clone());
 				let value_type = match recoverable_error
